@@ -57,12 +57,18 @@ func (n *BlockNode) render(w *trimWriter, ctx nodeContext) Error {
 }
 
 func (n *RawNode) render(w *trimWriter, ctx nodeContext) Error {
+	// The body of a raw block is emitted exactly as written: like a value, it is not
+	// the literal text that the whitespace control of a neighbouring tag is about.
+	w.trim = false
 	for _, s := range n.slices {
 		_, err := io.WriteString(w, s)
 		if err != nil {
 			// a raw node has no source location of its own
 			return wrapRenderError(err, invalidLoc)
 		}
+	}
+	if _, err := w.Flush(); err != nil {
+		return wrapRenderError(err, invalidLoc)
 	}
 	return nil
 }
